@@ -10,6 +10,7 @@ package psetv2
 // is in the correct state.
 
 import (
+	"bytes"
 	"fmt"
 
 	"github.com/btcsuite/btcd/txscript"
@@ -179,6 +180,20 @@ func (s *Signer) SignTaprootInputTapscriptSig(
 
 	if len(p.Inputs[inIndex].TapKeySig) > 0 {
 		return ErrSignerForbiddenTaprootScriptSigHasKeySig
+	}
+
+	// the same checks the parser applies to a tapscript signature entry
+	if len(tapscriptSig.PubKey) != 32 || len(tapscriptSig.LeafHash) != 32 {
+		return ErrInInvalidTapScriptSigKeyData
+	}
+	if len(tapscriptSig.Signature) != 64 && len(tapscriptSig.Signature) != 65 {
+		return ErrInInvalidTapScriptSigSignature
+	}
+	for _, sig := range p.Inputs[inIndex].TapScriptSig {
+		if bytes.Equal(sig.PubKey, tapscriptSig.PubKey) &&
+			bytes.Equal(sig.LeafHash, tapscriptSig.LeafHash) {
+			return ErrInDuplicatedField("taproot script signature")
+		}
 	}
 
 	if p.Inputs[inIndex].TapScriptSig == nil {
